@@ -277,6 +277,9 @@ type scaleFamily struct {
 	gen  func(n int) string
 }
 
+// largest n run for a family (absent = the tier's largest)
+var c13FamilyMax = map[string]int{"equ_diamond_label": 1000, "equ_diamond_product": 1000}
+
 var c13Families = []scaleFamily{
 	{"nested_parens", func(n int) string { return "\tDD " + strings.Repeat("(", n) + "1" + strings.Repeat(")", n) + "\n" }},
 	{"sum_chain", func(n int) string { return "\tDD 1" + strings.Repeat("+1", n) + "\n" }},
@@ -340,6 +343,53 @@ var c13Families = []scaleFamily{
 		}
 		return sb.String()
 	}},
+	// definitions that mention the previous name twice: 2^n evaluations unless a name is expanded once per expression
+	{"equ_diamond_label", func(n int) string {
+		var sb strings.Builder
+		sb.WriteString("A0 EQU L\n")
+		for i := 1; i <= n; i++ {
+			fmt.Fprintf(&sb, "A%d EQU A%d+A%d\n", i, i-1, i-1)
+		}
+		fmt.Fprintf(&sb, "L:\n\tMOV AX,A%d\n", n)
+		return sb.String()
+	}},
+	{"equ_diamond_product", func(n int) string {
+		var sb strings.Builder
+		sb.WriteString("A0 EQU L\n")
+		for i := 1; i <= n; i++ {
+			fmt.Fprintf(&sb, "A%d EQU A%d*2+(A%d-1)\n", i, i-1, i-1)
+		}
+		fmt.Fprintf(&sb, "L:\n\tDW A%d\n\tMOV AX,[A%d]\n", n, n)
+		return sb.String()
+	}},
+	// branch sizing: a chain in which every jump falls out of rel8 range only once the next one has grown
+	// (worst case for an iterative relaxation), and many independent far jumps
+	{"branch_cascade", func(n int) string {
+		var sb strings.Builder
+		sb.WriteString("\tJMP L0\n")
+		for i := 0; i < n; i++ {
+			fmt.Fprintf(&sb, "\tRESB 125\n\tJNZ L%d\nL%d:\n", i+1, i)
+		}
+		fmt.Fprintf(&sb, "\tRESB 200\nL%d:\n\tHLT\n", n)
+		return sb.String()
+	}},
+	{"branch_cascade_back", func(n int) string {
+		var sb strings.Builder
+		sb.WriteString("L0:\n\tRESB 200\n")
+		for i := 0; i < n; i++ {
+			fmt.Fprintf(&sb, "L%d:\n\tJMP L%d\n\tRESB 122\n", i+1, i)
+		}
+		fmt.Fprintf(&sb, "\tJMP L%d\n", n)
+		return sb.String()
+	}},
+	{"branches_far", func(n int) string {
+		var sb strings.Builder
+		for i := 0; i < n; i++ {
+			sb.WriteString("\tJE far\n\tCALL far\n")
+		}
+		sb.WriteString("\tRESB 300\nfar:\n\tRET\n")
+		return sb.String()
+	}},
 	{"equ_uses", func(n int) string { return "K EQU 7\n" + strings.Repeat("\tDB K*2,K\n", n) }},
 	{"mem_sum", func(n int) string { return "\tMOV AX,[BX+1" + strings.Repeat("+1", n) + "]\n" }},
 }
@@ -369,6 +419,12 @@ func c13Scaling(r *core.Run, tier string) {
 			fsizes = append(append([]int{}, sizes...), 100000)
 		}
 		for _, n := range fsizes {
+			if mx := c13FamilyMax[f.name]; mx > 0 && n > mx {
+				// a chain of n unreduced definitions costs O(n) per definition (each one walks the chain below it):
+				// quadratic, i.e. within the property, but minutes at 10^4 - the exponential the family is about shows at 100
+				rw.Note = fmt.Sprintf("capped at n=%d (quadratic family)", mx)
+				break
+			}
 			src := f.gen(n)
 			best := -1.0
 			var last *core.Result
@@ -429,7 +485,7 @@ func c13Scaling(r *core.Run, tier string) {
 		table = append(table, rw)
 	}
 	r.Extra["scaling_table"] = table
-	r.AddCustom("scaling", "11 input families scaled n = 10, 10^2, 10^3, 10^4 (thorough: 10^5): no crash, no timeout (120 s), and t(10n) <= 200 x max(t(n), 50 ms) (allows cubic growth, rejects exponential); minimum of 3 repetitions below 10^4",
+	r.AddCustom("scaling", fmt.Sprint(len(c13Families))+" input families scaled n = 10, 10^2, 10^3, 10^4 (thorough: 10^5): no crash, no timeout (120 s), and t(10n) <= 200 x max(t(n), 50 ms) (allows cubic growth, rejects exponential); minimum of 3 repetitions below 10^4",
 		map[string]any{"families": len(c13Families), "sizes": sizes}, states+1, states, cases, states, 1, true, time.Since(t0).Seconds())
 }
 
